@@ -42,20 +42,107 @@ theorem manager_do_shape : Gate.Gen.C22.managerDoCalls = ["m.Parse", "m.Execute"
 
 /-! ### decision logic -/
 
+set_option hygiene false in
+/-- case split over family, event flags and the dispatcher's answer for the command line that is run -/
+macro "c22_cases" : tactic => `(tactic| (
+  obtain ⟨den, fwd, nc⟩ := ev
+  cases fam <;> simp only [decide, decideLegacy, decideKeyed, decideSession, commandToRun, lockedRewrite, Flags.keyedLocked] at * <;>
+    generalize disp (Option.getD nc cmd) = d at * <;>
+    (rcases d with _ | _ | ⟨h', k⟩) <;> (try cases k) <;> cases den <;> cases fwd <;>
+    (try simp [execute] at *) <;> (repeat' split) <;> (try simp_all)))
+
 /-- The proxy runs a command handler exactly when the event neither denied nor forwarded the command and the
     dispatcher resolves the command line (as rewritten by the event) to that handler. -/
 theorem proxy_runs_iff (disp : String → Disp) (fam : Family) (f : Flags) (cmd : String) (ev : Ev) (h : Nat) :
     (decide disp fam f cmd ev).invoked = some h ↔
       (ev.denied = false ∧ ev.forward = false ∧ ∃ k, disp (commandToRun cmd ev) = .ran h k) := by
-  obtain ⟨den, fwd, nc⟩ := ev
-  cases fam <;> cases den <;> cases fwd <;>
-    simp only [decide, decideLegacy, decideKeyed, decideSession, Bool.false_eq_true, if_false, if_true] <;>
-    (try split) <;> (try split) <;> (try split) <;> simp_all [execute]
-  all_goals
-    (generalize hd : disp (commandToRun cmd ⟨_, _, nc⟩) = d at *
-     cases d with
-     | unknown => simp_all [execute]
-     | syntax => simp_all [execute]
-     | ran h' k => cases k <;> simp_all [execute])
+  c22_cases
+
+/-- A denied command never reaches the backend (and is not run by the proxy). -/
+theorem denied_never_forwarded (disp : String → Disp) (fam : Family) (f : Flags) (cmd : String) (ev : Ev)
+    (hden : ev.denied = true) :
+    (decide disp fam f cmd ev).backend = none ∧ (decide disp fam f cmd ev).invoked = none := by
+  c22_cases
+
+/-- Otherwise (the event forwards it, or the dispatcher does not know it, or its handler asks to forward it) and
+    unless denied, the backend receives one command packet carrying the command the event asked for. -/
+theorem otherwise_exactly_one_backend_packet (disp : String → Disp) (fam : Family) (f : Flags) (cmd : String) (ev : Ev)
+    (hr : f.repaired = true) (hden : ev.denied = false)
+    (hto : ev.forward = true ∨ disp (commandToRun cmd ev) = .unknown ∨ ∃ h, disp (commandToRun cmd ev) = .ran h .fwd)
+    (hlock : lockedRewrite fam f cmd ev = false) :
+    ∃ k, (decide disp fam f cmd ev).backend = some (k, commandToRun cmd ev) := by
+  c22_cases
+
+/-- A command the proxy takes (its handler ran to completion or failed, or brigodier reported a syntax error to the
+    player) is not also sent to the backend. -/
+theorem consumed_not_forwarded (disp : String → Disp) (fam : Family) (f : Flags) (cmd : String) (ev : Ev)
+    (hfwd : ev.forward = false)
+    (hc : disp (commandToRun cmd ev) = .syntaxErr ∨
+          ∃ h, disp (commandToRun cmd ev) = .ran h .ok ∨ disp (commandToRun cmd ev) = .ran h .fail) :
+    (decide disp fam f cmd ev).backend = none := by
+  c22_cases
+
+/-- Whatever reaches the backend carries the command line the event requested (the original if no handler changed it). -/
+theorem rewritten_as_requested (disp : String → Disp) (fam : Family) (f : Flags) (cmd : String) (ev : Ev)
+    (hr : f.repaired = true) :
+    ∀ bk t, (decide disp fam f cmd ev).backend = some (bk, t) → t = commandToRun cmd ev := by
+  c22_cases
+
+/-- With forceKeyAuthentication, rewriting a signed command that would go to the backend disconnects the player instead. -/
+theorem locked_rewrite_disconnects (disp : String → Disp) (fam : Family) (f : Flags) (cmd : String) (ev : Ev)
+    (hr : f.repaired = true) (hden : ev.denied = false)
+    (hto : ev.forward = true ∨ disp (commandToRun cmd ev) = .unknown ∨ ∃ h, disp (commandToRun cmd ev) = .ran h .fwd)
+    (hlock : lockedRewrite fam f cmd ev = true) :
+    (decide disp fam f cmd ev).backend = none ∧ (decide disp fam f cmd ev).disc = true := by
+  c22_cases
+
+/-! ### what "the dispatcher resolves the line" means for the modelled brigodier -/
+
+/-- the proxy only ever runs handlers of nodes whose requirement the player passes -/
+theorem ran_only_usable_nodes (t : Tree) (perms : List Nat) (line : String) (h : Nat) (k : HKind)
+    (hd : dispatch t perms line = .ran h k) :
+    ∃ nd ∈ t, nd.exec = some (h, k) ∧ usable perms nd = true := dispatch_ran_usable t perms line h k hd
+
+/-- … and only below a root literal that the first word of the line names and the player may use -/
+theorem ran_below_usable_root_literal (t : Tree) (perms : List Nat) (line : String) (h : Nat) (k : HKind)
+    (hroot : ∀ x ∈ children t 0, x.2.isLit = true) (hd : dispatch t perms line = .ran h k) :
+    ∃ x ∈ children t 0, x.2.kind = .lit (firstWord line) ∧ usable perms x.2 = true :=
+  dispatch_root t perms line h k hroot hd
+
+/-! ### what the code did before fixes/C22-command-forwarding.diff (`repaired = false`) -/
+
+/-- legacy clients: a command rewritten by the event that is not a proxy command reached the backend UNCHANGED -/
+theorem legacy_rewrite_forwards_original_fails :
+    (decide (fun _ => .unknown) .legacy ⟨false, false, false, false, false⟩ "h" ⟨false, false, some "home"⟩).backend
+      = some (.legacyChat, "h") := by decide
+
+/-- 1.19–1.19.2 clients with a LinkedV2 key and forceKeyAuthentication off: a signed command that the event
+    rewrote and forwarded reached nobody (no backend packet, no disconnect, not run) -/
+theorem keyed_forwarded_rewrite_lost_fails :
+    decide (fun _ => .unknown) .keyed ⟨true, true, false, false, false⟩ "h" ⟨false, true, some "home"⟩ = {} := by
+  decide
+
+/-! ### non-vacuity -/
+
+/-- the hypotheses of `otherwise_exactly_one_backend_packet` are satisfiable (here: the repaired keyed path) -/
+example : ∃ k, (decide (fun _ => .unknown) .keyed ⟨true, true, false, false, true⟩ "h" ⟨false, true, some "home"⟩).backend
+    = some (k, "home") :=
+  otherwise_exactly_one_backend_packet (fun _ => .unknown) .keyed ⟨true, true, false, false, true⟩ "h"
+    ⟨false, true, some "home"⟩ rfl rfl (Or.inl rfl) (by decide)
+
+example : (decide (fun _ => .unknown) .keyed ⟨true, true, false, false, true⟩ "h" ⟨false, true, some "home"⟩).backend
+    = some (.keyed false, "home") := by decide
+
+example : lockedRewrite .session ⟨true, false, true, false, true⟩ "msg a b" ⟨false, true, some "w a b"⟩ = true := by decide
+
+/-- the dispatch model on a small tree: `server` (executable) with a word argument; `admin` needs permission 1 -/
+example : dispatch [⟨0, .lit "server", none, some (1, .ok)⟩, ⟨1, .word, none, some (2, .ok)⟩,
+                    ⟨0, .lit "admin", some 1, some (3, .ok)⟩] [] "server lobby" = .ran 2 .ok := by decide
+example : dispatch [⟨0, .lit "server", none, some (1, .ok)⟩, ⟨1, .word, none, some (2, .ok)⟩,
+                    ⟨0, .lit "admin", some 1, some (3, .ok)⟩] [] "admin" = .unknown := by decide
+example : dispatch [⟨0, .lit "server", none, some (1, .ok)⟩, ⟨1, .word, none, some (2, .ok)⟩,
+                    ⟨0, .lit "admin", some 1, some (3, .ok)⟩] [1] "admin" = .ran 3 .ok := by decide
+example : dispatch [⟨0, .lit "server", none, some (1, .ok)⟩, ⟨1, .word, none, some (2, .ok)⟩,
+                    ⟨0, .lit "admin", some 1, some (3, .ok)⟩] [] "server a b" = .syntaxErr := by decide
 
 end Gate.C22.Props
